@@ -32,6 +32,7 @@ RULE = (
     "align_polynomials, pickle agree with the model; savetxt->loadtxt round-trips exactly or raises. "
     "non-trivial = an exponent or exponent sum >= 69 is involved."
 )
+LEVEL_TEXT += (" Also enumerated: fractional exponents (must raise) through four constructors, and products / squares of two-indeterminate polynomials whose exponent sum passes 2**32 (must raise, never wrap).")
 ASSUMPTIONS = [
     "which exception type an unrepresentable exponent raises is not asserted, only that no polynomial is returned",
     "text files: a raised error is acceptable, a different monomial is not",
